@@ -38,7 +38,11 @@ def absent_ids(edges, rng):
     rng.shuffle(out)
     tw = [k[0] + ':' + k[1] for k in twins if k not in have and ':' not in k[0]]
     rng.shuffle(tw)
-    return list(dict.fromkeys(tw[:3] + out))[:10]
+    # ids that only a normalising id class would take for a present node (zero padding, sign, blanks, digit separators,
+    # non-ASCII digits, letter case of the prefix)
+    la = [x for a in rng.sample(keys, min(2, len(keys))) for x in G.lookalikes(a[0] + ':' + a[1]) if G.key_of(x) not in have]
+    rng.shuffle(la)
+    return list(dict.fromkeys(tw[:3] + la[:4] + out))[:13]
 
 
 def calls_for(edges, rng, factory):
@@ -48,7 +52,7 @@ def calls_for(edges, rng, factory):
     known = rng.choice(nodes)
     calls = []
     for x in absent_ids(edges, rng):
-        for form in (['tid', x], ['str', x], ['ident', x]):
+        for form in (['tid', x], ['str', x], ['ident', x], ['utid', x]):
             for q in 'PCAD':
                 calls.append(['query', q, form, rng.random() < 0.5])
             calls.append(['leaf', form])
